@@ -16,9 +16,11 @@ var bigOne = big.NewInt(1)
 
 var identRe = regexp.MustCompile(`[A-Za-z_][A-Za-z0-9_.]*![0-9]+`)
 
-// MaxLen is the assumed upper bound of every slice/string length and capacity
-// (amd64 user address space); listed as assumption A-LEN in the evidence.
-var MaxLen = new(big.Int).Lsh(big.NewInt(1), 48)
+// MaxLen is the assumed upper bound of every existing slice/string length and
+// capacity (1 TiB; assumption A-LEN in the evidence).  MaxAlloc is the size
+// beyond which make() panics on amd64 (2^47 bytes of user address space).
+var MaxLen = new(big.Int).Lsh(big.NewInt(1), 40)
+var MaxAlloc = new(big.Int).Lsh(big.NewInt(1), 47)
 
 // Obligation is one named proof obligation, aggregated over all paths on which
 // it arises.
